@@ -309,35 +309,32 @@ theorem intPbB_shape (f : Fmt) (i : Int) (hb : f.letter = 'b' ∨ f.letter = 'B'
       SignOK (decide (i < 0)) sign ∧
       (pfx = [] ∨ (pfx = ['0', f.letter] ∧ (f.letter = 'x' ∨ f.letter = 'X' ∨ f.letter = 'b' ∨ f.letter = 'B'))) := by
   have hp : f.letter ≠ 'p' := by rcases hb with h | h <;> rw [h] <;> decide
-  have hsign : ∃ sign, (if (decide (i < 0) && decide (f.letter ≠ 'p')) = true then ['-'] else ([] : Str)) = sign ∧ SignOK (decide (i < 0)) sign := by
+  have hsok : SignOK (decide (i < 0)) (pbbSign f i) := by
+    unfold pbbSign
     by_cases hn : i < 0
-    · exact ⟨['-'], by simp [hn, hp], Or.inl ⟨by simp [hn], rfl⟩⟩
-    · exact ⟨[], by simp [hn], Or.inr ⟨by simp [hn], Or.inl rfl⟩⟩
-  obtain ⟨sign, hsg, hsok⟩ := hsign
-  have hpfx : ∃ pfx, (if (f.alt && decide (i ≠ 0)) = true then
-        (if f.letter = 'b' then ['0', 'b'] else if f.letter = 'B' then ['0', 'B'] else ([] : Str)) else []) = pfx ∧
-      (pfx = [] ∨ (pfx = ['0', f.letter] ∧ (f.letter = 'x' ∨ f.letter = 'X' ∨ f.letter = 'b' ∨ f.letter = 'B'))) := by
+    · simp [hn, hp, SignOK]
+    · simp [hn, SignOK]
+  have hpok : pbbPrefix f i = [] ∨ (pbbPrefix f i = ['0', f.letter] ∧ (f.letter = 'x' ∨ f.letter = 'X' ∨ f.letter = 'b' ∨ f.letter = 'B')) := by
+    unfold pbbPrefix
     by_cases ha : (f.alt && decide (i ≠ 0)) = true
     · rw [if_pos ha]
       rcases hb with h | h
-      · exact ⟨['0', 'b'], by simp [h], Or.inr ⟨by rw [h], by simp [h]⟩⟩
-      · exact ⟨['0', 'B'], by simp [h], Or.inr ⟨by rw [h], by simp [h]⟩⟩
-    · rw [if_neg ha]; exact ⟨[], rfl, Or.inl rfl⟩
-  obtain ⟨pfx, hpf, hpok⟩ := hpfx
-  unfold intPbB
-  simp only [hsg, hpf]
-  have hr : (if (decide (f.letter = 'b') || decide (f.letter = 'B')) = true then 2 else 10) = 2 := by
+      · exact Or.inr ⟨by simp [h], by simp [h]⟩
+      · exact Or.inr ⟨by simp [h], by simp [h]⟩
+    · rw [if_neg ha]; exact Or.inl rfl
+  have hds : pbbDigits f i = natStr 2 false i.natAbs := by
+    unfold pbbDigits
     rcases hb with h | h <;> simp [h]
-  have hnp : (decide (i < 0) && decide (f.letter = 'p')) = false := by simp [hp]
-  simp only [hr, Bool.false_eq_true, if_false, List.nil_append, hp, decide_false, Bool.and_false]
+  unfold intPbB
+  simp only [hds, if_neg hp]
   cases hl : f.left
-  · refine ⟨f.width.getD 0 - (sign.length + pfx.length + max (f.prec.getD 0) (natStr 2 false i.natAbs).length),
-      f.prec.getD 0 - (natStr 2 false i.natAbs).length, 0, sign, pfx, ?_, hsok, hpok⟩
+  · refine ⟨f.width.getD 0 - ((pbbSign f i).length + (pbbPrefix f i).length + max (f.prec.getD 0) (natStr 2 false i.natAbs).length),
+      f.prec.getD 0 - (natStr 2 false i.natAbs).length, 0, pbbSign f i, pbbPrefix f i, ?_, hsok, hpok⟩
     simp [spaces, List.append_assoc]
   · refine ⟨0, f.prec.getD 0 - (natStr 2 false i.natAbs).length,
-      f.width.getD 0 - (sign.length + pfx.length + max (f.prec.getD 0) (natStr 2 false i.natAbs).length), sign, pfx, ?_, hsok, hpok⟩
+      f.width.getD 0 - ((pbbSign f i).length + (pbbPrefix f i).length + max (f.prec.getD 0) (natStr 2 false i.natAbs).length),
+      pbbSign f i, pbbPrefix f i, ?_, hsok, hpok⟩
     simp [spaces, List.append_assoc]
-
 
 theorem int_of_natAbs (i : Int) : (if decide (i < 0) = true then -(i.natAbs : Int) else (i.natAbs : Int)) = i := by
   by_cases h : i < 0
